@@ -930,14 +930,9 @@ impl ProtocolState {
             return;
         }
 
-        // zero out everyone
-        let operations : Vec<u64> = self.operations.keys().copied().collect();
-        for id in operations {
-            let operation = self.operations.get_mut(&id).unwrap();
-            operation.slow_start_ack_value = 0;
-        }
-
-        // now mark all pending operations as part of slow start
+        // mark all pending operations as part of slow start.  Operations marked by an earlier interruption that
+        // are still unresolved (a connection attempt that failed before its CONNACK, a second disconnect in the
+        // middle of the drain) stay marked.
         // anything that completes before we reconect won't matter because we compute the
         // slow start sum at the moment we transition into the connected state
         let pending_non_publish_operations : Vec<u64> = self.pending_non_publish_operations.values().copied().collect();
